@@ -30,6 +30,7 @@ import (
 
 	goat "github.com/avos-io/goat"
 	"github.com/avos-io/goat/gen/goatorepo"
+	"github.com/avos-io/goat/internal/verifhook"
 	"github.com/rs/zerolog"
 	"github.com/rs/zerolog/log"
 )
@@ -207,6 +208,81 @@ func runProxyAttachRace(t *testing.T, idx int, em *Emitter, placed bool, procs i
 		em.Emit(Rec{Idx: idx, Kind: kind, Desc: map[string]any{"placed": placed, "gomaxprocs": procs, "rounds": len(rounds), "from_round": lo},
 			Obs: map[string]any{"rounds": len(rounds), "rounds_violating": hits}, Tags: tags,
 			Coq: "CProxyRace " + coqList(rounds[lo:hi])})
+	}
+	em.Marker("end", idx)
+}
+
+// ---------------------------------------------------------------- overflow race
+
+// A burst above the buffer towards a consumer that is merely SLOW (its Write yields a few times), free-running:
+// the forwarding loop, the write loop and whatever else the proxy starts race for the freed buffer slots. Per
+// round one source sends n envelopes back to back to one destination; judged by the delivery predicates of the
+// free-running stress (order per source-destination pair, nothing twice, loss <= drop counter). A probabilistic
+// search (one bubble per round, GOMAXPROCS as given, seeded yields).
+func runProxyBurstRace(t *testing.T, idx int, em *Emitter, procs, rounds int) {
+	em.Marker("begin", idx)
+	buf := pxMeasureBuf(t)
+	old := runtime.GOMAXPROCS(procs)
+	defer runtime.GOMAXPROCS(old)
+	rnd := newRand(int64(1670 + procs))
+	wstep, wstop := pxGuardWedge(em, idx, "proxy-free", map[string]any{"procs": procs}, []string{"burst-race"})
+	defer wstop()
+	tok := int64(20000)
+	for n := 0; n < rounds; n++ {
+		wstep()
+		per := 24 + rnd.Intn(30)
+		slow := 1 + rnd.Intn(30)
+		rig := &pxRig{sc: pxScenario{ByRef: n%2 == 0}, orig: map[int64]*Rpc{}, byId: map[uint64]int64{}}
+		var sent []pxEnv
+		var sentCoq, gotCoq []string
+		var drops int64
+		bubble(t, func(t *testing.T) {
+			ctx, cancel := context.WithCancel(context.Background())
+			verifhook.ResetCounters()
+			src, dst := NewEndpoint(pxName(1)), NewEndpoint(pxName(2))
+			dst.ByRef = n%2 == 0
+			dst.OnWrite = func(*Rpc) {
+				for i := 0; i < slow; i++ {
+					runtime.Gosched()
+				}
+			}
+			p := goat.NewProxy(ctx, pxName(pxProxyName), func(string) (goat.RpcReadWriter, error) { return nil, errInjected }, nil, func(string, error) {})
+			go p.Serve()
+			p.AddClient(pxName(1), src)
+			p.AddClient(pxName(2), dst)
+			synctest.Wait()
+			for i := 0; i < per; i++ {
+				tok++
+				rpc := &Rpc{Id: uint64(tok), Header: &goatorepo.RequestHeader{Method: "/x/y", Source: pxName(1), Destination: pxName(2)},
+					Body: &goatorepo.Body{Data: payloadOf(tok)}}
+				rig.orig[tok] = clone(rpc)
+				rig.byId[rpc.Id] = tok
+				sent = append(sent, pxEnv{Hdr: true, Src: 1, Dst: 2, Pay: tok})
+				src.Deliver(rpc)
+				if rnd.Intn(4) == 0 {
+					runtime.Gosched()
+				}
+			}
+			synctest.Wait()
+			drops = verifhook.Counter("proxy.drop")
+			for _, w := range dst.WrittenCopy() {
+				gotCoq = append(gotCoq, coqPair("1", rig.envOf(w).coq()))
+			}
+			cancel()
+			src.FailRead(io.EOF)
+			dst.FailRead(io.EOF)
+			synctest.Wait()
+		})
+		for _, e := range sent {
+			sentCoq = append(sentCoq, coqPair("0", e.coq()))
+		}
+		tags := []string{"burst-race", fmt.Sprintf("gomaxprocs=%d", procs)}
+		if drops > 0 {
+			tags = append(tags, "sig:proxy-overflow>buf", "drops>0")
+		}
+		em.Emit(Rec{Idx: idx, Kind: "proxy-free", Desc: map[string]any{"round": n, "per": per, "slow": slow, "procs": procs},
+			Obs: map[string]any{"sent": len(sentCoq), "got": len(gotCoq), "drops": drops}, Tags: tags,
+			Coq: fmt.Sprintf("CProxyFree %d %d 0 %s %s %s %d true", pxProxyName, buf, zList([]int64{1, 2}), coqList(sentCoq), coqList(gotCoq), drops)})
 	}
 	em.Marker("end", idx)
 }
